@@ -189,6 +189,9 @@ CATALOGUE = [
     ('c14_control_skipped_at_first_instant', 'C14', S,
      "        if motor_control is not None:\n            motor_control.apply_rules()",
      "        if motor_control is not None and len(self.__powertrain.time) > 1:\n            motor_control.apply_rules()"),
+    ('c14_rules_frozen_at_first_use', 'C14', 'gearpy/motor_control/pwm_control.py',
+     "        pwm_values = [rule.apply() for rule in self.__rules]",
+     "        if not hasattr(self, '_frozen'):\n            self._frozen = tuple(self.__rules)\n        pwm_values = [rule.apply() for rule in self._frozen]"),
     # ---- C15
     ('c15_timer_end_exclusive', 'C15', 'gearpy/sensors/timer.py',
      "            ((current_time - self.start_time) <= self.duration)",
